@@ -17,7 +17,6 @@
 package rawdb
 
 import (
-	"bytes"
 	"encoding/binary"
 	"github.com/youchainhq/go-youchain/common"
 	"github.com/youchainhq/go-youchain/common/hexutil"
@@ -176,7 +175,7 @@ func ReadHeader(db DatabaseReader, hash common.Hash, number uint64) *types.Heade
 		return nil
 	}
 	header := new(types.Header)
-	if err := rlp.Decode(bytes.NewReader(data), header); err != nil {
+	if err := rlp.DecodeBytes(data, header); err != nil {
 		logging.Error("Invalid block header RLP", "hash", hash, "err", err)
 		return nil
 	}
@@ -245,7 +244,7 @@ func ReadBody(db DatabaseReader, hash common.Hash, number uint64) *types.Body {
 		return nil
 	}
 	body := new(types.Body)
-	if err := rlp.Decode(bytes.NewReader(data), body); err != nil {
+	if err := rlp.DecodeBytes(data, body); err != nil {
 		logging.Error("Invalid block body RLP", "hash", hash, "err", err)
 		return nil
 	}
